@@ -50,6 +50,8 @@ RefArchive gen_ref(Tape& t) {
 			m.payload = reflzh::encode(toks, plain);
 			plain = reflzh::decode(m.payload).out;
 			m.comp = refvol::CompLZH; m.sizeField = uint32_t(plain.size());
+		} else if (t.below(8) == 0) {   // the format's other two kinds (RLE 0x101, LZ 0x102): listed and streamed like any member; the library cannot expand them
+			m.payload = t.expand(t.below(300)); m.comp = t.flag() ? 0x101 : 0x102; m.sizeField = uint32_t(m.payload.size() + t.below(1000)); plain.clear();
 		} else { m.payload = t.expand(gen_size(t) % 5000); m.comp = refvol::CompUncompressed; m.sizeField = uint32_t(m.payload.size()); plain = m.payload; }
 		a.ms.push_back(m); a.expanded.push_back(plain);
 	}
@@ -94,6 +96,11 @@ void read_case(const RefArchive& a0, Stats& st, bool sample) {
 		std::vector<uint8_t> got(m.payload.size()); s->Read(got.data(), got.size());
 		V_CHECK(got == m.payload, "member " << i << " stream bytes differ from the stored payload");
 		V_CHECK(v->GetIndex(m.name) == i, "GetIndex of member " << i);
+		if (m.comp != refvol::CompUncompressed && m.comp != refvol::CompLZH) {   // unsupported kind: extraction may be refused, but the archive object stays usable
+			guarded([&] { v->ExtractFile(i, "%o/x.bin"); }); st.cls("read:rle_or_lz_member");
+			V_CHECK(v->GetName(i) == m.name && v->GetSize(i) == m.sizeField, "archive object unusable after extracting a member of an unsupported kind");
+			continue;
+		}
 		std::string xp = "%o/x.bin"; v->ExtractFile(i, xp);
 		std::vector<uint8_t> ex; read_file(xp, ex);
 		V_CHECK(ex == a.expanded[i], "ExtractFile of member " << i << (m.comp == refvol::CompLZH ? " (LZH)" : "") << " wrote " << ex.size() << " bytes, expected " << a.expanded[i].size());
